@@ -369,6 +369,7 @@ def compare(scripts, flavor='plain', model_run=None, chunk=200, workers=8):
             if i['out'] != m['out']:
                 a, b_ = unhex(i['out']), unhex(m['out'])
                 k = next((x for x in range(min(len(a), len(b_))) if a[x] != b_[x]), min(len(a), len(b_)))
+                s.impl_out = a            # the model-free block oracle still judges what the real StatusPrinter printed
                 bad.append((s, 'stdout differs at byte %d: impl %r model %r' % (k, a[max(0, k - 30):k + 30], b_[max(0, k - 30):k + 30]))); continue
             if i['err'] != m['err']:
                 bad.append((s, 'stderr differs: impl %r model %r' % (unhex(i['err'])[:200], unhex(m['err'])[:200]))); continue
